@@ -378,21 +378,21 @@ registry.register("C09", {
     "axioms_allowed": [],
     "classify": classify,
     "components": [
-        {"name": "loss", "gen": gen_loss, "fixed": fixed_loss, "quick": 40000, "thorough": 600000,
+        {"name": "loss", "gen": gen_loss, "fixed": fixed_loss, "quick": 40000, "thorough": 1000000,
          "valid": valid_loss,
          "nontrivial": lambda case, out: len(out) == 5 and case[6] - case[5] < 3,
          "histogram": lambda cases, outs: {"lost": sum(1 for o in outs if o.split()[3:4] == ["1"]),
                                            "not_lost": sum(1 for o in outs if o.split()[3:4] == ["0"]),
                                            "by_time_only": sum(1 for c, o in zip(cases, outs) if o.split()[3:4] == ["1"] and c[6] - c[5] < 3)}},
-        {"name": "rtt", "gen": gen_rtt, "fixed": fixed_rtt, "quick": 15000, "thorough": 200000,
+        {"name": "rtt", "gen": gen_rtt, "fixed": fixed_rtt, "quick": 15000, "thorough": 300000,
          "valid": valid_rtt,
          "nontrivial": lambda case, out: sum(1 for i in range(1, len(case), 8) if case[i] == 1) >= 2,
          "histogram": lambda cases, outs: {"ops": {str(k): sum(c[1::8].count(k) for c in cases) for k in (0, 1, 2, 3)}}},
-        {"name": "pto", "gen": gen_pto, "fixed": fixed_pto, "quick": 20000, "thorough": 250000,
+        {"name": "pto", "gen": gen_pto, "fixed": fixed_pto, "quick": 20000, "thorough": 400000,
          "valid": valid_pto,
          "nontrivial": lambda case, out: 1 in out[0::4],
          "histogram": lambda cases, outs: {"expiries": sum(o.split()[0::4].count("1") for o in outs)}},
-        {"name": "manager", "gen": gen_manager, "fixed": fixed_manager, "quick": 8000, "thorough": 60000,
+        {"name": "manager", "gen": gen_manager, "fixed": fixed_manager, "quick": 8000, "thorough": 100000,
          "valid": valid_manager,
          "nontrivial": lambda case, out: len(case) > 4 + 24 and any(case[i] in (3, 4) for i in range(4, len(case), 8)),
          "histogram": lambda cases, outs: {"ops": {str(k): sum(c[4::8].count(k) for c in cases) for k in (1, 2, 3, 4, 5, 6)}}},
